@@ -35,7 +35,17 @@ import (
 var secretWords = []string{"whaterror", "123456", "im a pass", "测试", "пароль", "🔑key", "p@ss w0rd!", "a", "S", "Salted__", "é"}
 
 func genSecret(rng *ev.Rand) []byte {
-	switch rng.Intn(12) {
+	switch rng.Intn(14) {
+	case 12, 13: // a secret that reads as an encoding of something (hex digits, base64) is still the secret itself
+		alpha := rng.PickStr("0123456789abcdef", "0123456789ABCDEF", "ABCDEFGHIJKLMNOPQRSTUVWXYZabcdefghijklmnopqrstuvwxyz0123456789+/", "0123456789")
+		b := make([]byte, rng.Pick(16, 24, 32, 32, 44, 48, 64))
+		for i := range b {
+			b[i] = alpha[rng.Intn(len(alpha))]
+		}
+		if rng.Chance(1, 4) && len(b) >= 2 {
+			b[len(b)-1], b[len(b)-2] = '=', '='
+		}
+		return b
 	case 0:
 		return []byte{}
 	case 1:
